@@ -95,6 +95,26 @@ package priority
 //@ event recv dsc.inputRmvs (p)
 //@   effect gPset := store(gPset, p, false)
 
+// The API side of the requests (run by the caller's goroutine): what is asked for is what was passed.
+//@ ghost var gReqCh int
+//@ ghost var gReqP int
+//@ event send dsc.inputAdds (in)
+//@   effect gReqCh := in.channel
+//@   effect gReqP := in.priority
+//@ event send dsc.inputRmvs (p)
+//@   effect gReqP := p
+//@ func (*Discipline).Err
+//@   requires [*] dsc != nil
+//@   ensures [* C07 C15] the-channel-the-discipline-reports-on: result == dsc.err
+//@ func (*Discipline).AddInput
+//@   requires [*] dsc != nil
+//@   modifies gReqCh, gReqP, gClock
+//@   ensures [C17] the-request-carries-the-arguments: gReqCh == channel && gReqP == priority
+//@ func (*Discipline).RemoveInput
+//@   requires [*] dsc != nil
+//@   modifies gReqP, gClock
+//@   ensures [C17] the-request-carries-the-argument: gReqP == priority
+
 //@ event send dsc.err (e)
 //@   requires [C02 C07 C15] reported-error-is-the-divider-fault: gDivErr ==> e == ErrDividerBad
 //@   requires [C02 C07 C15] only-real-errors-are-sent: e != nil
